@@ -255,7 +255,9 @@ theorem filter_mirror (S : Int) (rows : List RRow) (p q : RRow → Bool)
 
 /-- **release_mirror** (discrete mode): the reversed releaser and the forward releaser of the
     mirrored table release at the same steps the same rows (up to the mirrored time stamp), in
-    the same order — each release happens at its stated time. -/
+    the same order — each release happens at its stated time.  Cold start (`c.warm = false`):
+    the warm filter `r.time > c.start` is not mirror-symmetric, see
+    `release_mirror_warm_counterexample`. -/
 theorem release_mirror (c : RelCfg) (hrev : c.rev = true) (hc : c.continuous = false)
     (hrt : c.releaseTimeCol = false) (hw : c.warm = false) (rows : List RRow) :
     match Rel.init c rows, Rel.init (mirrorCfg c) (rows.map (mirrorRow c.start)) with
@@ -303,17 +305,18 @@ theorem release_mirror (c : RelCfg) (hrev : c.rev = true) (hc : c.continuous = f
     intro r
     simp [mirrorRow]
 
-end Ladim.C10
+/-- the hypothesis `c.warm = false` of `release_mirror` is needed: the warm filter `r.time > c.start`
+    is not mirror-symmetric.  Reversed warm run from 10 to 0 with one row at time 5: the reversed
+    releaser drops the row (no release at all), the mirrored forward releaser releases it at step 5. -/
+def warmCfg : RelCfg :=
+  { start := 10, stop := 0, dt := 1, rev := true, continuous := false, freq := 1, warm := true,
+    releaseTimeCol := false }
+def warmRows : List RRow := [{ time := 5, mult := 1, cols := [] }]
 
-namespace Ladim.C10
-open Ladim
-def cx : RelCfg := { start := 10, stop := 0, dt := 1, rev := true, continuous := false, freq := 1, warm := true, releaseTimeCol := false }
-def cxRows : List RRow := [{ time := 5, mult := 1, cols := [] }]
-#eval (match Rel.init cx cxRows with | .ok r => some (r.steps, r.total) | _ => none)
-#eval (match Rel.init (mirrorCfg cx) (cxRows.map (mirrorRow cx.start)) with | .ok r => some (r.steps, r.total) | _ => none)
 theorem release_mirror_warm_counterexample :
-    match Rel.init cx cxRows, Rel.init (mirrorCfg cx) (cxRows.map (mirrorRow cx.start)) with
-    | .ok r, .ok r' => r.steps = [] ∧ r'.steps = [5] ∧ r.total = 0 ∧ r'.total = 1
-    | _, _ => False := by decide
-#print axioms release_mirror_warm_counterexample
+    ∃ r r', Rel.init warmCfg warmRows = .ok r ∧
+      Rel.init (mirrorCfg warmCfg) (warmRows.map (mirrorRow warmCfg.start)) = .ok r' ∧
+      r.steps = [] ∧ r'.steps = [5] ∧ r.total = 0 ∧ r'.total = 1 :=
+  ⟨_, _, rfl, rfl, rfl, rfl, rfl, rfl⟩
+
 end Ladim.C10
